@@ -272,3 +272,13 @@ PROPS["C08"]["rule"] += "; K valid symbols with leading/trailing line ends, blan
 PROPS["C11"]["rule"] += "; windows/chunks of a width near usize::MAX polled repeatedly"
 PROPS["C15"]["rule"] += "; array inputs listing a codon twice"
 PROPS["C05"]["rule"] += "; symbol-level conversions text->dna (all 256 bytes), dna->text, dna->iupac"
+
+# round 5
+PROPS["C01"]["rule"] += "; two harness-defined derived codecs (2-bit with a non-inverting complement, 3-bit with alternatives) beside the seven built-in ones; Interleave: every ordered pair of codecs used a,b,a,b on one thread through every entry point; Display into a sink that fails part-way, then Display again"
+PROPS["C06"]["rule"] += "; the two harness-defined derived codecs go through the same exploration"
+PROPS["C07"]["rule"] += "; the two harness-defined derived codecs (their complement is neither a bit inversion nor a reversal) go through the same cases"
+PROPS["C08"]["rule"] += "; Interleave: every ordered pair of 28 k-mer types (codec x storage x K) used a,b,a,b on one thread through from_str and Display; Display into a failing sink, then Display again"
+PROPS["C02"]["rule"] += "; a text of the same length containing a byte that is not a symbol character never compares equal (sequences and k-mers)"
+PROPS["C11"]["rule"] += "; terminals also for_each, collect, find, position, all, by_ref().take(1) then drain, each on the real iterator after every advance sequence"
+PROPS["C17"]["rule"] += "; G8: variant names of other shapes (lower-case incl. names starting with r, one-letter, digits/underscores, shared prefixes, long names)"
+PROPS["C18"]["rule"] += "; composition in a stream: (Seq, u32) tuples, Vec<Seq>, two values written back to back and read sequentially, deserialisation consumes exactly serialized_size bytes, JSON tuples"
